@@ -298,6 +298,13 @@ def structural(prop="C16"):
     out.append(OR(id=f"{prop}.S.obj2dict.exports_dot_slash_relative_url", status=PROVED if ok else REFUTED, kind="S", target="ford.external_project.obj2dict", role="post", backend="ast",
                   desc="the exported external_url of an entity is './' followed by its get_url() (the form whose first component dict2obj strips: hypothesis of the round-trip postcondition)",
                   witness=None if ok else {"external_url expression": seen}))
+    # 1b. obj2dict exports list attributes filtered by accessibility
+    comps = [n for n in ast.walk(fn) if isinstance(n, ast.ListComp) and "obj2dict(item)" in ast.unparse(n.elt)]
+    okf = len(comps) == 1 and len(comps[0].generators) == 1 and len(comps[0].generators[0].ifs) == 1 and \
+        ast.unparse(comps[0].generators[0].ifs[0]).replace(" ", "") == "isinstance(item,str)orgetattr(item,'permission','public')in('public','protected')"
+    out.append(OR(id=f"{prop}.S.obj2dict.lists_hold_accessible_entities_only", status=PROVED if okf else REFUTED, kind="S", target="ford.external_project.obj2dict", role="post", backend="ast",
+                  desc="the entity lists of an exported module / type are filtered to entries whose accessibility is public or protected (names of unresolved entities pass as they are)",
+                  witness=None if okf else {"list comprehensions over obj2dict(item)": [ast.unparse(c) for c in comps]}))
     # 2. search order of Project.find without a kind: local collections before external ones
     fp = loader.import_repo("ford.fortran_project")
     order = list(dict.fromkeys(fp.LINK_TYPES.values()))
